@@ -108,6 +108,10 @@ def run(repo: Repo, L: Ledger, tier: str):
     if ok2:
         e = res[0]["env"]
         got = (e.get("self.current_scaffold_name"), e.get("self.current_rank"), e.get("self.current_haplotype"))
+        from ..finite import UNKNOWN as _UNK, Opaque as _Opq
+
+        if any(x is _UNK or isinstance(x, _Opq) for x in got):
+            raise AnalysisError(f"{mk.short}: the name / rank / haplotype of an untagged scaffold is computed through a helper that constant propagation does not follow ({got})")
         ok2 = got == ("INPUT_NAME", 3, None)
         why2 = f"an untagged, unpainted Pretext scaffold is named/ranked {got}, expected ('<name of its first row>', 3, None)"
     L.check(ok2, "R2", mk.short, "current name = first row's (input scaffold) name, rank 3, no haplotype", why2, mk.loc())
@@ -127,6 +131,8 @@ def run(repo: Repo, L: Ledger, tier: str):
     if ok2b:
         e = res[0]["env"]
         got = (e.get(f"{lp[1]}.name"), e.get(f"{lp[1]}.rank"), e.get(f"{lp[1]}.tag"), e.get(f"{lp[1]}.haplotype"))
+        if any(x is _UNK or isinstance(x, _Opq) for x in got):
+            raise AnalysisError(f"{label.short}: labelling of an untagged piece goes through a helper that constant propagation does not follow ({got})")
         ok2b = got == ("INPUT_NAME", 3, None, None)
         why2b = f"an untagged piece is labelled {got}, expected ('INPUT_NAME', 3, None, None)"
     L.check(ok2b, "R2", label.short, "piece labelled with the current name/rank, no tag", why2b, label.loc())
